@@ -105,6 +105,11 @@ def op_build_fresh(st, hid, recipe):
     return _info(st, hid)
 
 
+_COMMON_KINDS = {"IndexLambda", "Placeholder", "DataWrapper", "Axis",
+                 "DictOfNamedArrays", "SizeParam", "NormalizedSlice",
+                 "BasicIndex", "Reshape", "AxisPermutation"}
+
+
 def op_mutate(st, hid_new, hid, mseed):
     root = st.h[hid]
     rng = random.Random(f"mut:{mseed}")
@@ -114,6 +119,10 @@ def op_mutate(st, hid_new, hid, mseed):
         bysig.setdefault(mutate.site_signature(node, f), []).append((node, f))
     sigs = sorted(bysig)
     rng.shuffle(sigs)
+    if rng.random() < 0.5:
+        # half of the time the rarer node families go first (a uniform draw
+        # over signatures almost always lands on IndexLambda / Placeholder)
+        sigs.sort(key=lambda sg: sg.split(".")[0] in _COMMON_KINDS)
     base = walker.canon_text(root, "content")
     for sig in sigs[:6]:
         node, f = rng.choice(bysig[sig])
@@ -132,6 +141,69 @@ def op_mutate(st, hid_new, hid, mseed):
         st.meta[hid_new] = {"origin": ("mutate", hid, sig), "tainted": True}
         return {"sig": sig, **_info(st, hid_new)}
     return {"sig": None}
+
+
+def op_field_sweep(st, hid, seed, with_keys=True, max_sigs=60):
+    """ONE mutant for EVERY (node kind, field) signature present in the graph
+    (a random history reaches the rare signatures -- a loopy call's translation
+    unit, a callee kernel inside it -- far too seldom): original vs mutant
+    must be unequal, and their keys must differ.  Everything happens in this
+    interpreter; the mutants are dropped afterwards."""
+    root = st.h[hid]
+    rng = random.Random(f"sweep:{seed}")
+    bysig: dict = {}
+    for node, f in mutate.sites(root):
+        bysig.setdefault(mutate.site_signature(node, f), []).append((node, f))
+    sigs = sorted(bysig)
+    if len(sigs) > max_sigs:
+        sigs = sorted(rng.sample(sigs, max_sigs))
+    base_i = walker.canon_key(root, "identity")
+    base_c = walker.canon_key(root, "content")
+    kb = st.key_builder()
+    try:
+        k0 = kb(root) if with_keys else None
+    except Exception:  # noqa: BLE001
+        k0 = None
+    viol = []
+    cnt = {"sweep_mutants": 0, "sweeps": 1}
+    sig_seen = []
+    for sig in sigs:
+        node, f = rng.choice(bysig[sig])
+        try:
+            m = mutate.mutate_site(root, node, f, rng, st.mut_counter)
+        except mutate.Ineffective:
+            continue
+        except Exception:  # noqa: BLE001
+            continue
+        if not _usable(m):
+            continue
+        try:
+            mi = walker.canon_key(m, "identity")
+            mc = walker.canon_key(m, "content")
+        except Exception:  # noqa: BLE001
+            continue
+        cnt["sweep_mutants"] += 1
+        sig_seen.append(sig)
+        if mi != base_i:
+            try:
+                e1, e2 = bool(root == m), bool(m == root)
+            except Exception:  # noqa: BLE001
+                e1 = e2 = None
+            if e1 or e2:
+                viol.append({"class": "equal-despite-difference:" + sig,
+                             "handles": [hid], "detail": "field sweep"})
+            elif e1 is False:
+                pass
+        if with_keys and k0 is not None and mc != base_c:
+            try:
+                k1 = kb(m)
+            except Exception:  # noqa: BLE001
+                k1 = None
+            if k1 is not None and k1 == k0:
+                viol.append({"class": "key-collision:" + sig,
+                             "handles": [hid], "detail": "field sweep"})
+        del m
+    return {"violations": viol[:8], "counters": cnt, "sigs": sig_seen}
 
 
 def _usable(obj):
